@@ -3,8 +3,10 @@ package eng
 import (
 	"context"
 	"fmt"
+	"math/bits"
 	"strings"
 	"sync"
+	"sync/atomic"
 	"testing"
 	"time"
 
@@ -248,59 +250,52 @@ func TestC20(t *testing.T) {
 	// counters grow); when everything has ended no stream may be counted as active. (Linearizable counters: the
 	// sequential model's answer for any interleaving of balanced +1/-1 pairs is "[]".)
 	if !stopAll {
-		rounds, perWorker := 6, 30000
+		rounds := 40
 		if e.Thorough() {
-			rounds, perWorker = 40, 60000
+			rounds = 400
 		}
 		for r := 0; r < rounds && !stopAll; r++ {
 			obs := proxy.NewReplicationStreamObserver(log.NewNoopLogger())
 			var wg sync.WaitGroup
-			stopGrow := make(chan struct{})
+			var stop atomic.Bool
+			var pairs atomic.Int64
 			for k := int32(1); k <= 6; k++ {
 				wg.Add(1)
 				go func(k int32) {
 					defer wg.Done()
-					for i := 0; i < perWorker; i++ {
+					for i := 0; !stop.Load() || i < 2000; i++ { // keep opening/closing for as long as the counters keep growing
 						obs.ReportStreamValue(k, 1)
 						obs.ReportStreamValue(k, -1)
+						pairs.Add(1)
 					}
 				}(k)
 			}
 			growDone := make(chan struct{})
 			go func() {
 				defer close(growDone)
-				idx := int32(1500 + rng.IntN(500))
-				for {
-					select {
-					case <-stopGrow:
-						return
-					default:
-					}
+				defer stop.Store(true)
+				for idx := int32(60000 + rng.IntN(5000)); idx < 1<<20; idx = idx*9/8 + 1 { // every step re-allocates a large counter array
 					obs.ReportStreamValue(idx, 1)
 					obs.ReportStreamValue(idx, -1)
-					if idx < 1<<19 {
-						idx = idx*5/4 + 1
-					} else {
-						return
-					}
 				}
 			}()
 			finished := make(chan struct{})
-			go func() { wg.Wait(); close(finished) }()
+			go func() { <-growDone; wg.Wait(); close(finished) }()
 			state := "[]"
 			select {
 			case <-finished:
-				close(stopGrow)
-				<-growDone
 				if s, ok := withTimeout(2*time.Second, obs.PrintActiveStreams); ok {
 					state = s
 				} else {
 					state = "blocked"
 				}
 			case <-time.After(60 * time.Second):
+				stop.Store(true)
 				state = "wedged"
 			}
-			op := fmt.Sprintf("# concurrent round %d: 6 streams x %d open/close pairs on shards 1..6 while other streams open with growing shard ids", r, perWorker)
+			perWorker := pairs.Load() / 6
+			op := fmt.Sprintf("# concurrent round %d: 6 streams opening and closing on shards 1..6 while other streams open with growing shard ids", r)
+			e.Count("concurrent_pairs_per_stream_log2_" + fmt.Sprint(bits.Len64(uint64(perWorker))))
 			e.Emit(op, "#")
 			e.Evals++
 			e.Count("concurrent_round")
